@@ -35,7 +35,7 @@ func init() {
 	register(&Rule{ID: "E-DECIMAL-EQ", Props: []string{"C05", "C20", "C14", "C03", "C01"}, Floor: 1,
 		Doc: "decimal128.Decimal values are never compared with == or != (struct equality distinguishes 1.0 from 1 and 0.30 from 0.3) nor used as map keys; equality goes through Equal/Cmp/Compare",
 		Run: ruleEDecimalEq})
-	register(&Rule{ID: "E-CONV-LOSSLESS", Props: []string{"C14", "C05", "C03"}, Floor: 9,
+	register(&Rule{ID: "E-CONV-LOSSLESS", Props: []string{"C14", "C05", "C03", "C02"}, Floor: 9,
 		Doc: "every integer-to-integer conversion in the evaluator and parser keeps the value: the target type contains the source type's range, or the operand is range-checked by a dominating comparison with a constant",
 		Run: ruleEConvLossless})
 	register(&Rule{ID: "E-TOINT-NO-RESULT", Props: []string{"C14", "C05", "C02"}, Floor: 4,
